@@ -96,3 +96,18 @@ FUNCTIONS = {
     "dec_12_1x3_7_3_4_3": gate("12-1x3-7-3-4-3 decomposition", "q_12_1x3_7_3_4_3", spec_msg_word,
                                "plain recomposition of limbs (12,1,1,1,7,3,4,3) and a boolean constraint on EACH of the three 1-bit limbs (they bypass the spread lookup)"),
 }
+
+
+def spec_add_mod(loc):
+    """sum of the summand cells = result + 2^32 * carry (one linear constraint; the range of carry and result is
+    enforced by lookups elsewhere)"""
+    names = [n for n in ("s0", "s1", "s2", "s3", "s4", "s5", "s6", "s7", "s8", "s9") if n in loc]
+    if len(names) < 2:
+        from polyvc import Unsupported
+        raise Unsupported("add-mod gate no longer binds summand cells s0..")
+    summands = need(loc, names)
+    carry, result = need(loc, ["carry", "result"])
+    return [sum(summands) - (result + carry * 2**32)]
+
+
+FUNCTIONS["add_mod"] = gate("add mod 2^32", "q_add_mod_2_32", spec_add_mod, "sum of all summand cells = result + 2^32 carry")
